@@ -1,5 +1,6 @@
 import Hgxv.Model.Wire
 import Hgxv.Model.C05
+import Hgxv.Model.C05GetEdges
 /-! Line protocol for C05.  Two families of slots: `u` (Hypergraph) and `d` (DirectedHypergraph).
 Keys: `u` = `1,2,3` (`_` empty), `d` = `1,2>3`; raw keys are canonicalised (sorted) on entry.
 Metadata: `a:v,a:v` or `-`.  Optional numbers / lists: `n` = None.
@@ -10,6 +11,8 @@ Metadata: `a:v,a:v` or `-`.  Optional numbers / lists: `n` = None.
   K addempty s name md | K sethm s md | K attrh s a v                            -> ok | rej
   K copy i j | K induced i j nodes | K lcc i j comp | K byorders i j orders|n sizes|n keep
   K edgessub i j order|n size|n upto keep                                        -> ok | rej
+  K getedges i j order|n size|n upto sub keep md   (get_edges with all its flags)
+        -> rej | `keys k;k;...` | `keysmd k=md;...` | `sub` (the extracted hypergraph is stored in slot j)
   K q s    -> `w|n:md;n:md|key=w=md;...|key@n=md;...|name=md;...|md`  (nodes | hyperedges | incidence metadata |
               empty edges | hypergraph metadata; md printed `a:v,a:v`, `-` when empty; `~` = empty list) -/
 open Wire C05
@@ -165,6 +168,24 @@ def stepK (sl : Slots κ) : List String → Slots κ × String
       let upTo ← bool? upTo
       let keep ← bool? keep
       some (extract sl i j (fun c => edgesSub c o s upTo keep))
+  | ["getedges", i, j, o, s, upTo, sub, keep, md] => orBad sl do
+      let i ← i.toNat?
+      let j ← j.toNat?
+      let o ← optInt? o
+      let s ← optInt? s
+      let upTo ← bool? upTo
+      let sub ← bool? sub
+      let keep ← bool? keep
+      let md ← bool? md
+      match AL.get? sl i with
+      | none => some (sl, "bad-slot")
+      | some c =>
+        match getEdges c o s upTo sub keep md with
+        | none => some (sl, "rej")
+        | some (.keys ks) => some (sl, "keys " ++ showList ";" "~" (fun (k : κ) => WireKey.render k) ks)
+        | some (.keysMd ks) =>
+            some (sl, "keysmd " ++ showList ";" "~" (fun (p : κ × Meta) => WireKey.render p.1 ++ "=" ++ showMeta p.2) ks)
+        | some (.sub r) => some (AL.set sl j r, "sub")
   | ["q", s] => match s.toNat? with
       | none => (sl, "bad-op")
       | some i => match AL.get? sl i with
